@@ -225,6 +225,8 @@ def step (d : DState) (l : Line) : DState × List Verdict :=
     -- bs: 1 = the renter's clearing / final revision signature is invalid, 2 = the one over the new contract
     let bs := (getNat l.args "bs").getD 0
     let sg : Sigs := { clearing := bs != 1, contract := bs != 2 }
+    -- blocks connected between the arrival of the RPC id and the arrival of the request body
+    let dh1 := (getNat l.args "dh1").getD 0
     let sigClauses : List (String × Bool) := [("clearing_renter_signed_this_revision", bs != 1), ("renter_signed_new_contract", bs != 2)]
     let fin (fn : String) (implRet : String) (model : Res String) (cl closed : List (String × Bool)) :=
       (count d res (cl.length + closed.length), judge fn res implRet model cl closed)
@@ -431,10 +433,10 @@ def step (d : DState) (l : Line) : DState × List Verdict :=
         let rec_ := (getStr l.obs "rec").getD ""
         let recL := getNatList l.obs "rec"
         let locked := match recL with | some (x :: _) => x | _ => 0
-        let model : Res String := (rpcForm2 rh f (10 + rk) h st sg).bind fun r => .ok (natListStr (recList r))
+        let model : Res String := (rpcForm2At true rh f (10 + rk) h (h + dh1) st sg).bind fun r => .ok (natListStr (recList r))
         let n := (getRev l.obs "n").getD f    -- the signed initial revision handed to AddContract
         fin "rpcFormContract" rec_ model
-          (contractClauses n h st 0 locked ++ [("stored_contract_is_request", (getRev l.obs "n").all (sameContract f))]
+          (contractClauses n (h + dh1) st 0 locked ++ [("stored_contract_is_request", (getRev l.obs "n").all (sameContract f))]
             ++ sigClauses.drop 1)
           (closedRec recL (formRecorded f st))
       | _, _, _, _, _ => bad
@@ -445,7 +447,7 @@ def step (d : DState) (l : Line) : DState × List Verdict :=
         let rec_ := (getStr l.obs "rec").getD ""
         let recL := getNatList l.obs "rec"
         let locked := match recL with | some (x :: _) => x | _ => 0
-        let model : Res String := (rpcRenew2 fx rh e f fv (10 + rk) h st sg).bind fun r => .ok (natListStr (recList r))
+        let model : Res String := (rpcRenew2At fx true rh e f fv (10 + rk) h (h + dh1) st sg).bind fun r => .ok (natListStr (recList r))
         let n := (getRev l.obs "n").getD f    -- signed renewal / clearing revisions handed to RenewContract
         let pay := match renterVal e.valid with
           | some v => if st.baseRPCPrice > v then v else st.baseRPCPrice
@@ -454,7 +456,7 @@ def step (d : DState) (l : Line) : DState × List Verdict :=
           | some x => (clearingClauses e x pay).map fun c => ("clearing_" ++ c.1, c.2)
           | none => []
         fin "rpcRenewAndClearContract" rec_ model
-          (contractClauses n h st (baseCost st.storagePrice e f) locked
+          (contractClauses n (h + dh1) st (baseCost st.storagePrice e f) locked
             ++ [("stored_contract_is_request", (getRev l.obs "n").all (sameContract f))] ++ clr ++ sigClauses)
           (closedRec recL (renew2Recorded e f fv st))
       | _, _, _, _, _, _, _ => bad
